@@ -246,8 +246,8 @@ func UpdatePathAttrs(logger *slog.Logger, global *oc.Global, info *PeerInfo, ori
 		} else {
 			switch a.GetType() {
 			case bgp.BGP_ATTR_TYPE_CLUSTER_LIST, bgp.BGP_ATTR_TYPE_ORIGINATOR_ID:
-				if info.PeerType != oc.PEER_TYPE_INTERNAL || !info.RouteReflectorClient {
-					// send these attributes to only rr clients
+				if info.PeerType != oc.PEER_TYPE_INTERNAL {
+					// these attributes never leave the AS
 					path.delPathAttr(a.GetType())
 				}
 			}
@@ -303,7 +303,15 @@ func UpdatePathAttrs(logger *slog.Logger, global *oc.Global, info *PeerInfo, ori
 		// RFC4456: BGP Route Reflection
 		// 8. Avoiding Routing Information Loops
 		src := path.GetSource()
-		if info.RouteReflectorClient {
+		// RFC4456 6: a route from a client is reflected to non-clients as well,
+		// under the cluster id configured for that client.
+		clusterID := info.RouteReflectorClusterID
+		reflecting := info.RouteReflectorClient
+		if !reflecting && !path.IsLocal() && src.PeerType == oc.PEER_TYPE_INTERNAL && src.RouteReflectorClient {
+			reflecting = true
+			clusterID = src.RouteReflectorClusterID
+		}
+		if reflecting {
 			// This attribute will carry the BGP Identifier of the originator of the route in the local AS.
 			// A BGP speaker SHOULD NOT create an ORIGINATOR_ID attribute if one already exists.
 			//
@@ -313,7 +321,7 @@ func UpdatePathAttrs(logger *slog.Logger, global *oc.Global, info *PeerInfo, ori
 			// advertiser, and the Next-hop attribute shall be set of the local
 			// address for that session.
 			var attr *bgp.PathAttributeOriginatorId
-			if path.GetFamily() == bgp.RF_RTC_UC {
+			if info.RouteReflectorClient && path.GetFamily() == bgp.RF_RTC_UC {
 				path.SetNexthop(localAddress)
 				if path.IsLocal() {
 					attr, _ = bgp.NewPathAttributeOriginatorId(global.Config.RouterId)
@@ -334,7 +342,6 @@ func UpdatePathAttrs(logger *slog.Logger, global *oc.Global, info *PeerInfo, ori
 			// When an RR reflects a route, it MUST prepend the local CLUSTER_ID to the CLUSTER_LIST.
 			// If the CLUSTER_LIST is empty, it MUST create a new one.
 			// TODO: needs to validated earlier.
-			clusterID := info.RouteReflectorClusterID
 			var pa *bgp.PathAttributeClusterList
 			if p := path.getPathAttr(bgp.BGP_ATTR_TYPE_CLUSTER_LIST); p == nil {
 				pa, _ = bgp.NewPathAttributeClusterList([]netip.Addr{clusterID})
